@@ -178,6 +178,18 @@ def case_2d(ctx, where, N, batch):
     ctx.prove("ift2 = centred inverse 2-D DFT", pre, all_eq(xi, centred_dft(Xf, d, inverse=True, axes=(-1, -2))),
               replay=lambda m: replay_oracle(where, "ift2", m(Xf), m(d), True, (-1, -2)), witness_terms=dict(delta_f=d))
     ctx.prove("guard:wrong scale refutable", pre + [z(x.flat[0].re) != 0], all_eq(xb * 2, x), expect="sat", kind="sensitivity")
+    # the contract used by the propagator checks (C10/C11): delta scaling and linearity of the 2-D pair
+    one = Sym(1)
+    ctx.prove("ft2(x,d) = d^2 ft2(x,1)", pre, all_eq(X, _call(where, "ft2", x, one) * d * d),
+              replay=lambda m: (False, dict(note="not replayed")))
+    ctx.prove("ift2(X,df) = (N df)^2 ift2(X,1/N)", pre, all_eq(xi, _call(where, "ift2", Xf, one / N) * (d * N) * (d * N)),
+              replay=lambda m: (False, dict(note="not replayed")))
+    y = symarr("y", shape, cplx=True)
+    al, be = core.cvar("al"), core.cvar("be")
+    ctx.prove("ft2 linear", pre, all_eq(_call(where, "ft2", x * al + y * be, d), X * al + _call(where, "ft2", y, d) * be),
+              replay=lambda m: (False, dict(note="not replayed")))
+    ctx.prove("ift2 linear", pre, all_eq(_call(where, "ift2", Xf * al + y * be, d), xi * al + _call(where, "ift2", y, d) * be),
+              replay=lambda m: (False, dict(note="not replayed")))
     _validate(ctx, where, "ft2", x, d, X)
     _validate(ctx, where, "ift2", Xf, d, xi)
 
@@ -255,7 +267,7 @@ def build_cases(tier):
     for N in ([2, 3] if tier == "quick" else [2, 3, 4, 5]):
         cases.append(("mod/ft1d/N=%d/batch=2" % N, case_1d, dict(where="mod", N=N, batch=(2,))))
         cases.append(("pkg/ft1d/N=%d" % N, case_1d, dict(where="pkg", N=N, batch=())))
-    n2 = [1, 2, 3, 4] if tier == "quick" else [1, 2, 3, 4, 5, 6]
+    n2 = [1, 2, 3, 4] if tier == "quick" else [1, 2, 3, 4, 5, 6, 8]
     for N in n2:
         cases.append(("mod/ft2d/N=%d" % N, case_2d, dict(where="mod", N=N, batch=())))
         cases.append(("pkg/ft2d/N=%d" % N, case_2d, dict(where="pkg", N=N, batch=())))
